@@ -35,6 +35,10 @@ func Scratch() string {
 
 // Cleanup removes the scratch root.
 func Cleanup() {
+	if os.Getenv("VERIF_KEEP_SCRATCH") != "" {
+		fmt.Println("scratch kept at", scratchRoot) // triage aid
+		return
+	}
 	if scratchRoot != "" {
 		_ = os.RemoveAll(scratchRoot)
 	}
